@@ -39,6 +39,9 @@ RULESETS = {
     "F": ({"ip": {"EVENT": "2/min", "REQ": "1/s"}, "2001:db8::1": {"EVENT": "-1/s"}},
           {"ip": {"EVENT": [[60, 2]], "REQ": [[1, 1]]}, "2001:db8::1": {"EVENT": [[1, -1]]}},
           ["2001:db8::1:25", "2001:db8::1:26", "2001:db8::1"]),
+    # a specific address whose own rule has a longer window than any per-IP rule (what cleanup() keeps must cover it)
+    "G": ({"ip": {"EVENT": "3/s"}, "2.2.2.2": {"EVENT": "1/min", "REQ": "2/hour"}},
+          {"ip": {"EVENT": [[1, 3]]}, "2.2.2.2": {"EVENT": [[60, 1]], "REQ": [[3600, 2]]}}),
 }
 
 GEN_EXTRA = r"""
@@ -148,7 +151,7 @@ def run(prop, tier, seed, **kw):
     out = Outcome("C18", tier, seed, "model_checking")
     out.add_matcher("global-limit-counts-messages-the-ip-rule-refused", _known_overblock)
     rnd = random.Random(seed)
-    design = tlc.DesignCheck([("MC_RateLimiter", "MC_RateLimiter_%s.cfg" % w, "RateLimiter/" + w) for w in ("A", "B", "C", "D", "E")],
+    design = tlc.DesignCheck([("MC_RateLimiter", "MC_RateLimiter_%s.cfg" % w, "RateLimiter/" + w) for w in ("A", "B", "C", "D", "E", "G")],
                              workers=4, timeout=1800)
     depth = {"quick": 3, "thorough": 4}[tier]
     distinct = set()
